@@ -235,6 +235,7 @@ func piiFree(e error) []namedOut {
 	var out []namedOut
 	out = append(out, namedOut{"redact(%v)", string(redact.Sprintf("%v", e).Redact())})
 	out = append(out, namedOut{"redact(%+v)", string(redact.Sprintf("%+v", e).Redact())})
+	out = append(out, namedOut{"errors.Redact", redactAPI(e)})
 	for _, p := range errors.GetAllSafeDetails(e) {
 		out = append(out, namedOut{"GetAllSafeDetails", p.OriginalTypeName + "\x00" + strings.Join(p.SafeDetails, "\x00")})
 	}
@@ -285,6 +286,14 @@ func oracleC03(res *Result, c *Case) {
 		if t.Class == 'U' {
 			unsafeToks = append(unsafeToks, t)
 		}
+	}
+	res.OracleEvals["C03.redact_api"]++
+	if ok, _ := catch(func() {
+		if a, b := redactAPI(c.Err), redactAPIReference(c.Err); a != b {
+			res.fail(c, "C03.redact_api", fmt.Sprintf("errors.Redact(e) = %q, redact.Sprint(e).Redact().StripMarkers() = %q", a, b), "C03:redact-api")
+		}
+	}); !ok {
+		res.fail(c, "C03.redact_api", "errors.Redact panicked", "C03:redact-api-panic")
 	}
 	for _, st := range stages(c.Err, true) {
 		var outs []namedOut
